@@ -5,4 +5,5 @@ cd "$(dirname "$0")/checker"
 unset GOWORK GOSUMDB
 export GOFLAGS=-mod=mod GOPROXY=off
 mkdir -p ../bin
+python3 ../tools/gennames.py >/dev/null
 go build -o ../bin/klogsa .
